@@ -62,7 +62,8 @@ pub fn ggsw_infos() -> GGSWLayout {
     GGSWLayout { n: Degree(N), base2k: Base2K(BASE2K), k: TorusPrecision(K_GGSW), rank: Rank(1), dnum: Dnum(2), dsize: Dsize(1) }
 }
 
-pub fn run(threads: usize) {
+pub fn run(args: &[String]) {
+    let threads: usize = args.first().and_then(|s| s.parse().ok()).unwrap_or(1);
     let module: Module<BE> = Module::<BE>::new(N as u64);
     let mut source_xs = Source::new([1u8; 32]);
     let mut source_xa = Source::new([2u8; 32]);
